@@ -103,7 +103,7 @@ def run(ctx):
         cases = [(c['prog'], c['inputs'])]
     else:
         ctx.mc('MC_AssocResolve', 'MC_AssocResolve', workers=4, timeout=900, coverage=False)    # design level, see the module header
-        cases = gen_cases(ctx, dev or (112 if ctx.quick else 1680))
+        cases = gen_cases(ctx, dev or (len(OPTS) * len(POPS) if ctx.quick else 8 * len(OPTS) * len(POPS)))
     results, fails, legal = F.behaviour_check(ctx, 'assoc', cases, transform)
     recheck = None if ctx.quick and not ctx.replay else F.make_recheck(ctx, transform)
     deadline = time.time() + 420
